@@ -1,0 +1,92 @@
+// Copyright Amazon.com, Inc. or its affiliates. All Rights Reserved.
+// SPDX-License-Identifier: Apache-2.0
+
+//! Verification hook, compiled only with `--cfg aws_clock_bound_verif`.
+//!
+//! A stand-in for the parts of `std::sync::atomic` this crate uses. Every operation first reports
+//! itself to an optional thread-local observer and then performs the real std operation, so the
+//! behaviour is unchanged when no observer is installed. Out-of-tree replay harnesses use the
+//! observer to script what a reader observes, and to look at the segment while an update is in
+//! flight.
+
+pub use std::sync::atomic::Ordering;
+
+use std::cell::RefCell;
+
+/// One shared-memory operation about to be performed.
+#[derive(Debug, Clone, Copy)]
+pub enum Access {
+    Load { addr: usize, size: usize, order: Ordering },
+    Store { addr: usize, size: usize, value: u64, order: Ordering },
+    Fence { order: Ordering },
+}
+
+type Observer = Box<dyn FnMut(Access)>;
+
+thread_local! {
+    static OBSERVER: RefCell<Option<Observer>> = RefCell::new(None);
+}
+
+/// Install (or with `None`, remove) the observer of the calling thread.
+pub fn set_observer(observer: Option<Observer>) {
+    OBSERVER.with(|o| *o.borrow_mut() = observer);
+}
+
+fn notify(access: Access) {
+    // The observer is taken out while it runs so that it may itself use the shim.
+    let taken = OBSERVER.with(|o| o.borrow_mut().take());
+    if let Some(mut observer) = taken {
+        observer(access);
+        OBSERVER.with(|o| {
+            let mut slot = o.borrow_mut();
+            if slot.is_none() {
+                *slot = Some(observer);
+            }
+        });
+    }
+}
+
+macro_rules! shim_atomic {
+    ($name:ident, $inner:ty, $prim:ty) => {
+        #[repr(transparent)]
+        #[derive(Debug)]
+        pub struct $name($inner);
+
+        impl $name {
+            pub const fn new(value: $prim) -> Self {
+                Self(<$inner>::new(value))
+            }
+
+            pub fn load(&self, order: Ordering) -> $prim {
+                notify(Access::Load {
+                    addr: self as *const Self as usize,
+                    size: std::mem::size_of::<$prim>(),
+                    order,
+                });
+                self.0.load(order)
+            }
+
+            pub fn store(&self, value: $prim, order: Ordering) {
+                notify(Access::Store {
+                    addr: self as *const Self as usize,
+                    size: std::mem::size_of::<$prim>(),
+                    value: value as u64,
+                    order,
+                });
+                self.0.store(value, order)
+            }
+
+            pub fn into_inner(self) -> $prim {
+                self.0.into_inner()
+            }
+        }
+    };
+}
+
+shim_atomic!(AtomicU16, std::sync::atomic::AtomicU16, u16);
+shim_atomic!(AtomicU32, std::sync::atomic::AtomicU32, u32);
+
+pub fn fence(order: Ordering) {
+    notify(Access::Fence { order });
+    std::sync::atomic::fence(order)
+}
